@@ -215,3 +215,23 @@ PROPS["C07"] = dict(
     assumptions=["uninitialised reads are invisible to ASan/UBSan (DESIGN section 5)"],
     budget_s=dict(quick=600, thorough=3000),
 )
+
+# ---------------------------------------------------------------- C08
+PROPS["C08"] = dict(
+    level="exploration",
+    technique="exhaustive enumeration of JWK presentation variants of a fixed key pool on the real importer, compared member by member with an independent reading of the JWK",
+    level_text=("every key of the committed pool (RSA 512-4096 incl. e=3 / 33-bit e / RSA-PSS, P-256/384/521, secp256k1, keys whose x, y "
+                "or d has a leading zero byte, Ed25519, Ed448) in private and public form, and oct keys of every length 1-512, is "
+                "imported in every single and every pair of presentation dimensions (alg, kid, use, key_ops, integer encoding, "
+                "foreign member); thorough adds the full product for six representative keys.  The PEM the library hands out is "
+                "re-parsed by libcrypto and n,e,d,p,q,dp,dq,qi / group,x,y,d / raw OKP keys are compared as integers with the "
+                "harness's own base64url+BIGNUM reading of the JWK; metadata is compared with what the JWK states; foreign members "
+                "must leave PEM and metadata unchanged"),
+    level_note="the pool is fixed and committed (corner shapes chosen on purpose); random regeneration would be sampling",
+    rule=("evaluations = import calls; non-trivial = distinct JWK texts imported without error and compared; the counter "
+          "noncanonical_encodings_refused reports zero-padded/minimal encodings the importer declined (permitted)"),
+    runs=lambda tier: [dict(harness="jwk", args=["--param", 0])],
+    bound=dict(quick="all pool keys x all single and pairwise dimension sweeps; oct 1-512", thorough="plus the full product for 6 representative keys"),
+    assumptions=["GnuTLS has no JWK importer of its own (it uses the OpenSSL one), so only provider 0 is run"],
+    budget_s=dict(quick=600, thorough=3000),
+)
